@@ -133,7 +133,27 @@ A_CLASSES = {
     'A1': (['x', "x'"], ['y', "y'"]),
     'A2': (['y', "x'"], ["x'", "y'"]),    # Mealy reads
     'A3': (["x'", "y'"], ['x', "y'"]),    # environment reads y'
+    # three-bit supports: 256 functions on one side, all 16 on the other
+    'A4': (['x', 'y', "x'"], ['y', "y'"]),
+    'A5': (['x', "x'"], ['x', 'y', "y'"]),
+    'A6': (['x', "x'"], ["x'", 'y', "y'"]),   # Mealy component
 }
+A_BASE = ('A1', 'A2', 'A3')
+A_WIDE = ('A4', 'A5', 'A6')
+
+
+def _n_functions(vars_):
+    return 1 << (1 << len(vars_))
+
+
+def _spread(n, seed, k=16):
+    """k of the n function indices, spread over the range from a
+    seed-selected offset (all of them if n <= k)."""
+    if n <= k:
+        return list(range(n))
+    stride = n // k
+    off = (seed * 7 + 3) % stride
+    return [off + i * stride for i in range(k)]
 A_DECL = dict(env=[['x', 'bool']], sys=[['y', 'bool']], const=[])
 MODES = [(True, True), (True, False), (False, True), (False, False)]
 # state predicates over (x, y): rows ordered (F,F),(F,T),(T,F),(T,T)
@@ -151,18 +171,31 @@ def a_pred_menu(tier, seed, which):
     return [0, 15, a, b]
 
 
-def a_shards(tier, seed, backends=('cudd',), classes=('A1', 'A2', 'A3')):
+def a_shards(tier, seed, backends=('cudd',), classes=A_BASE):
     out = []
     for cls in classes:
+        evars, svars = A_CLASSES[cls]
+        nE, nS = _n_functions(evars), _n_functions(svars)
+        if cls in A_WIDE and tier != 'thorough':
+            # complete over the 16-function side, a spread of 16 on the other
+            Es, Ss = _spread(nE, seed, 8), _spread(nS, seed + 1, 8)
+        else:
+            Es, Ss = list(range(nE)), list(range(nS))
+            if cls in A_WIDE:
+                # thorough: all 256 x 16, with the quick lists of predicates
+                pass
         for be in backends:
-            for e in range(16):
-                if tier == 'thorough':
-                    for s in range(16):
+            for e in Es:
+                if tier == 'thorough' and cls not in A_WIDE:
+                    for s in Ss:
                         out.append(dict(fam=cls, backend=be, E=e, S=[s],
                                         tier=tier, seed=seed))
                 else:
-                    out.append(dict(fam=cls, backend=be, E=e,
-                                    S=list(range(16)), tier=tier, seed=seed))
+                    for i in range(0, len(Ss), 16):
+                        out.append(dict(
+                            fam=cls, backend=be, E=e, S=Ss[i:i + 16],
+                            tier='quick' if cls in A_WIDE else tier,
+                            seed=seed))
     return out
 
 
@@ -336,6 +369,7 @@ def game_shards(tier, seed, autoref='A1'):
     with the quick predicate menu plus B (thorough).
     """
     sh = a_shards(tier, seed) + b_shards(tier, seed)
+    sh += a_shards(tier, seed, classes=A_WIDE)
     if tier == 'thorough':
         extra = a_shards('quick', seed, backends=('autoref',))
         sh += extra + b_shards('quick', seed, backends=('autoref',))
@@ -383,8 +417,10 @@ def game_sequences(shard, rabin=False, length=4):
 def scope_text(tier, seed):
     return dict(
         familyA='x Boolean env, y Boolean component; classes A1 E(x,x\')/S(y,y\'), '
-                'A2 E(y,x\')/S(x\',y\'), A3 E(x\',y\')/S(x,y\'); all 16x16 '
-                'function pairs per class',
+                'A2 E(y,x\')/S(x\',y\'), A3 E(x\',y\')/S(x,y\'): all 16x16 '
+                'function pairs per class; A4 E(x,y,x\')/S(y,y\'), A5 '
+                'E(x,x\')/S(x,y,y\'), A6 E(x,x\')/S(x\',y,y\'): 256x16 pairs '
+                '(thorough all; quick a seed-rotated spread of 8 x 8)',
         P_lists_streett=a_lists(tier, seed, False)[0],
         G_lists_streett=a_lists(tier, seed, False)[1],
         P_lists_rabin=a_lists(tier, seed, True)[0],
